@@ -296,3 +296,146 @@ func recvIs(v ssa.Value, pred func(ssa.Value) bool) bool {
 	}
 	return rec(v, 0)
 }
+
+// ---- reject helpers ---------------------------------------------------------------------------------
+
+// A reject helper is an unexported, non-escaping method of the root package that does, for an error and a value
+// update passed in, exactly what the reject branches of the update path must do: submit a watchErrorEvent{err: the
+// error parameter, oldConfig: View(), newConfig: the *T parameter (or nil)} on every path, and answer the update's
+// reply channel with that error exactly once whenever the channel is non-nil - and nothing else (no store, no
+// Events send). A call of such a helper counts as "event submitted" and "reply sent" for the error argument, so
+// that folding the two reject branches into one helper does not change a verdict.
+type rejectHelper struct {
+	fn               *ssa.Function
+	errP, newP, updP int
+}
+
+var rejectHelperCache = map[*ssa.Function]*rejectHelper{}
+
+func nilEdgeFilter(b *ssa.BasicBlock, succ int) bool {
+	if iff, ok := b.Instrs[len(b.Instrs)-1].(*ssa.If); ok {
+		if nv, nilWhenTrue, ok := nilCheckOf(iff.Cond); ok && isErrorChan(nv.Type()) {
+			nilEdge := 1
+			if nilWhenTrue {
+				nilEdge = 0
+			}
+			return succ != nilEdge
+		}
+	}
+	return true
+}
+
+func (k *core) rejectHelperOf(h *ssa.Function) *rejectHelper {
+	if h == nil {
+		return nil
+	}
+	h = origin(h)
+	if rh, ok := rejectHelperCache[h]; ok {
+		return rh
+	}
+	rejectHelperCache[h] = nil
+	if len(h.Blocks) == 0 || k.w.pkgRelOfFn(h) != "" || h.Parent() != nil || isAPI(h) || k.cg.escapes[h] {
+		return nil
+	}
+	rh := &rejectHelper{fn: h, errP: -1, newP: -1, updP: -1}
+	for pi, p := range h.Params {
+		switch {
+		case types.TypeString(p.Type(), nil) == "error":
+			rh.errP = pi
+		case namedTypeName(p.Type()) == ".valueUpdate":
+			rh.updP = pi
+		}
+	}
+	if rh.errP < 0 || rh.updP < 0 {
+		return nil
+	}
+	errV := ssa.Value(h.Params[rh.errP])
+	// no store of a version, no Events send, no goroutine
+	for _, sc := range k.storeCalls {
+		if origin(sc.Parent()) == h {
+			return nil
+		}
+	}
+	for _, i := range allInstrs(h) {
+		if _, ok := i.(*ssa.Go); ok {
+			return nil
+		}
+	}
+	for _, op := range chanOps(h) {
+		if chanIsField(op.Chan, k.fUpdates) {
+			return nil
+		}
+	}
+	// (i) every path to a return submits the event
+	isSubmit := func(i ssa.Instruction) bool {
+		ci, ok := i.(*ssa.Call)
+		if !ok {
+			return false
+		}
+		for _, a := range ci.Call.Args {
+			al := allocOf(a)
+			if al == nil || litTypeName(al) != ".watchErrorEvent" {
+				continue
+			}
+			if e := litField(al, "err"); e != errV {
+				continue
+			}
+			if oc := litField(al, "oldConfig"); oc == nil || !isCallToFn(oc, k.view) {
+				continue
+			}
+			nc := litField(al, "newConfig")
+			if p, ok := nc.(*ssa.Parameter); ok {
+				for pi, hp := range h.Params {
+					if hp == p {
+						rh.newP = pi
+					}
+				}
+				return true
+			}
+			if nc == nil || isNilConst(nc) {
+				return true
+			}
+		}
+		return false
+	}
+	if hit := reachAvoidFromBlock(h.Blocks[0], isReturn, isSubmit); hit != nil {
+		return nil
+	}
+	// (ii) the reply: sent the error whenever non-nil, never twice
+	isReply := func(i ssa.Instruction) bool {
+		s, ok := i.(*ssa.Send)
+		if !ok || !isErrorChan(s.Chan.Type()) || s.X != errV {
+			return false
+		}
+		_, isFld := loadOfTypeField(s.Chan, ".valueUpdate", "installed")
+		return isFld
+	}
+	if hit := reachAvoidEdges(h.Blocks[0], isReturn, isReply, nilEdgeFilter); hit != nil {
+		return nil
+	}
+	for _, i := range allInstrs(h) {
+		if s, ok := i.(*ssa.Send); ok {
+			if !isReply(s) {
+				return nil // any other send
+			}
+			if again := reachAvoid(h, s, func(j ssa.Instruction) bool { _, ok := j.(*ssa.Send); return ok }, nil); again != nil {
+				return nil
+			}
+		}
+	}
+	rejectHelperCache[h] = rh
+	return rh
+}
+
+// rejectCall: i is a call of a reject helper; returns the helper and the call.
+func (k *core) rejectCall(i ssa.Instruction) (*rejectHelper, *ssa.Call) {
+	call, ok := i.(*ssa.Call)
+	if !ok {
+		return nil, nil
+	}
+	rh := k.rejectHelperOf(staticCallee(call))
+	if rh == nil {
+		return nil, nil
+	}
+	return rh, call
+}
